@@ -543,6 +543,15 @@ theorem length_encSegElems_ge (lvl : Nat) : ∀ (l : List JSeg) (first : Bool), 
     have := ih false
     cases first <;> simp only [encSegElems, List.length_append, List.length_cons] <;> simp <;> omega
 
+theorem length_encSegs_ge (lvl : Nat) (l : List JSeg) : l.length ≤ (encSegs lvl l).length := by
+  unfold encSegs
+  cases l with
+  | nil => simp
+  | cons s l =>
+    have := length_encSegElems_ge (lvl + 1) (s :: l) true
+    simp only [List.length_append, List.length_cons] at this ⊢
+    omega
+
 theorem length_encode_ge (m : JMan) (rest : List Nat) : m.segments.length + 20 ≤ (encode m ++ rest).length := by
   unfold encode member closeObj encSegs
   have h := length_encSegElems_ge 2 m.segments true
@@ -579,6 +588,292 @@ theorem parseStruct_encode (m : JMan) (hw : m.WF) (rest : List Nat) (fuel : Nat)
       | some c => exact parseField_someChk (f + 2) 1 c rest (h5 c hc) (by omega)
     refine (parseMembers_member (f + 2) .man false 1 [99, 104, 101, 99, 107, 112, 111, 105, 110, 116] _ _ _ 3 .optChk
       (.chk m.checkpoint) _ (by decide) (by decide) rfl (hchk _)).trans ?_
+    refine (parseMembers_member (f + 1) .man false 1 [110, 101, 120, 116, 95, 115, 101, 103, 109, 101, 110, 116, 95, 105, 100]
+      (encNat m.next) _ _ 4 .u64 (.num m.next) _ (by decide) (by decide) rfl
+      (parseField_u64 _ _ _ h3 (sepHead_closeObj _ _))).trans ?_
+    exact parseMembers_close f .man 0 rest _
+  · simp [buildMan, getNum, List.lookup]
+
+/-! ## skipped values (`IgnoredAny`) over what the writer wrote -/
+
+theorem skipStrBody_escByte (b : Nat) (fuel : Nat) (r : List Nat) :
+    skipStrBody (fuel + 1) (escByte b ++ r) = skipStrBody fuel r := by
+  unfold escByte
+  by_cases h34 : b = 34
+  · subst h34; simp [skipStrBody]
+  by_cases h92 : b = 92
+  · subst h92; simp [skipStrBody]
+  by_cases h8 : b = 8
+  · subst h8; simp [skipStrBody]
+  by_cases h12 : b = 12
+  · subst h12; simp [skipStrBody]
+  by_cases h10 : b = 10
+  · subst h10; simp [skipStrBody]
+  by_cases h13 : b = 13
+  · subst h13; simp [skipStrBody]
+  by_cases h9 : b = 9
+  · subst h9; simp [skipStrBody]
+  simp only [h34, h92, h8, h12, h10, h13, h9, if_false]
+  by_cases hc : b < 32
+  · simp only [hc, if_true]
+    have hhi : b / 16 < 16 := by omega
+    have hlo : b % 16 < 16 := by omega
+    have hx : hex4 (48 :: 48 :: hexDigit (b / 16) :: hexDigit (b % 16) :: r) = some (b, r) := by
+      unfold hex4
+      have z : hexVal 48 = some 0 := by decide
+      simp only [z, hexVal_hexDigit hhi, hexVal_hexDigit hlo]
+      congr 2
+      omega
+    simp only [List.cons_append, List.nil_append]
+    conv => lhs; unfold skipStrBody
+    simp [hx]
+  · simp only [hc, if_false, List.singleton_append]
+    conv => lhs; unfold skipStrBody
+    have e1 : (b == 34) = false := by simpa using h34
+    have e2 : (b == 92) = false := by simpa using h92
+    simp [e1, e2, hc]
+
+theorem skipStrBody_enc : ∀ (s : List Nat) (fuel : Nat) (rest : List Nat), s.length < fuel →
+    skipStrBody fuel (s.flatMap escByte ++ 34 :: rest) = some rest := by
+  intro s
+  induction s with
+  | nil =>
+    intro fuel rest hf
+    cases fuel with
+    | zero => simp at hf
+    | succ f => simp [skipStrBody]
+  | cons b s ih =>
+    intro fuel rest hf
+    cases fuel with
+    | zero => simp at hf
+    | succ f =>
+      simp only [List.flatMap_cons, List.append_assoc]
+      rw [skipStrBody_escByte, ih f rest (by simpa using hf)]
+
+theorem encNat_all_digits (n : Nat) : ∀ x ∈ encNat n, isDigit x = true := by
+  induction n using Nat.strongRecOn with
+  | _ n ih =>
+    by_cases h : n < 10
+    · rw [encNat_small h]
+      intro x hx
+      simp only [List.mem_singleton] at hx
+      subst hx
+      unfold isDigit; simp; omega
+    · have hd : n / 10 < n := Nat.div_lt_self (by omega) (by omega)
+      rw [encNat_big h]
+      intro x hx
+      rcases List.mem_append.mp hx with hx | hx
+      · exact ih (n / 10) hd x hx
+      · simp only [List.mem_singleton] at hx
+        subst hx
+        unfold isDigit; simp; omega
+
+theorem dropDigits_digits : ∀ (l rest : List Nat), (∀ x ∈ l, isDigit x = true) → dropDigits (l ++ rest) = dropDigits rest := by
+  intro l
+  induction l with
+  | nil => intro rest _; rfl
+  | cons b l ih =>
+    intro rest h
+    simp only [List.cons_append]
+    conv => lhs; unfold dropDigits
+    simp only [h b (by simp), if_true]
+    exact ih rest (fun x hx => h x (by simp [hx]))
+
+theorem dropDigits_sep {rest : List Nat} (h : sepHead rest) : dropDigits rest = rest := by
+  cases rest with
+  | nil => cases h
+  | cons c r =>
+    simp only [sepHead] at h
+    unfold dropDigits
+    rcases h with h | h <;> subst h <;> simp [isDigit]
+
+theorem skipFraction_sep {rest : List Nat} (h : sepHead rest) : skipFraction rest = some rest := by
+  cases rest with
+  | nil => cases h
+  | cons c r =>
+    simp only [sepHead] at h
+    rcases h with h | h <;> subst h <;> simp [skipFraction]
+
+/-- a number the writer wrote, skipped -/
+theorem skipNumber_encNat (n : Nat) (rest : List Nat) (hr : sepHead rest) : skipNumber (encNat n ++ rest) = some rest := by
+  obtain ⟨d, ds, he, hdig, hz, hds⟩ := encNat_head n
+  have hall := encNat_all_digits n
+  rw [he] at hall ⊢
+  simp only [List.cons_append]
+  unfold skipNumber
+  by_cases h0 : n = 0
+  · have hd48 : d = 48 := hz.mpr h0
+    have : ds = [] := hds h0
+    subst this
+    subst hd48
+    simp only [List.nil_append, beq_self_eq_true, if_true]
+    cases rest with
+    | nil => cases hr
+    | cons c r =>
+      have := (sepHead_nonDigit hr).1
+      simp only [nonDigitHead] at this
+      simp only [this, Bool.false_eq_true, if_false]
+      exact skipFraction_sep hr
+  · have hd48 : ¬ d = 48 := fun hh => h0 (hz.mp hh)
+    have hb : (d == 48) = false := by simpa using hd48
+    simp only [hb, hdig, if_true, Bool.false_eq_true, if_false]
+    rw [dropDigits_digits ds rest (fun x hx => hall x (by simp [hx])), dropDigits_sep hr]
+    exact skipFraction_sep hr
+
+theorem skipValue_num (fuel n : Nat) (rest : List Nat) (hr : sepHead rest) :
+    skipValue (fuel + 1) (32 :: (encNat n ++ rest)) = some rest := by
+  obtain ⟨d, ds, he, hdig, _, _⟩ := encNat_head n
+  conv => lhs; unfold skipValue
+  rw [skipWs_cons_ws (show isWs 32 = true by decide), skipWs_encNat]
+  have hsk := skipNumber_encNat n rest hr
+  rw [he] at hsk ⊢
+  simp only [List.cons_append] at hsk ⊢
+  have hd : 48 ≤ d ∧ d ≤ 57 := by unfold isDigit at hdig; simpa using hdig
+  have e1 : (d == 110) = false := by simp; omega
+  have e2 : (d == 116) = false := by simp; omega
+  have e3 : (d == 102) = false := by simp; omega
+  have e4 : (d == 45) = false := by simp; omega
+  simp only [e1, e2, e3, e4, hdig, Bool.false_eq_true, if_false, if_true]
+  exact hsk
+
+theorem skipValue_str (fuel : Nat) (s rest : List Nat) :
+    skipValue (fuel + 1) (32 :: (encStr s ++ rest)) = some rest := by
+  conv => lhs; unfold skipValue
+  rw [skipWs_cons_ws (show isWs 32 = true by decide)]
+  unfold encStr
+  simp only [List.cons_append, List.append_assoc, List.nil_append]
+  rw [skipWs_cons_nonws (show isWs 34 = false by decide)]
+  simp only [show ((34 : Nat) == 110) = false by decide, show ((34 : Nat) == 116) = false by decide,
+    show ((34 : Nat) == 102) = false by decide, show ((34 : Nat) == 45) = false by decide,
+    show isDigit 34 = false by decide, show ((34 : Nat) == 34) = true by decide, Bool.false_eq_true, if_false, if_true]
+  exact skipStrBody_enc s _ rest (by
+    have := length_le_flatMap_escByte s
+    simp only [List.length_append, List.length_cons]
+    omega)
+
+theorem member_false (lvl : Nat) (name value : List Nat) :
+    member lvl false name value = 44 :: member lvl true name value := by
+  simp [member]
+
+/-- one member of a skipped object, more members follow -/
+theorem skipMembers_member (fuel lvl : Nat) (name value rest2 : List Nat)
+    (hval : skipValue fuel (32 :: (value ++ 44 :: rest2)) = some (44 :: rest2)) :
+    skipMembers (fuel + 1) (member lvl true name value ++ 44 :: rest2) = skipMembers fuel rest2 := by
+  simp only [member, if_true, encStr, List.cons_append, List.append_assoc, List.nil_append]
+  conv => lhs; unfold skipMembers
+  rw [skipWs_nl_indent, skipWs_cons_nonws (show isWs 34 = false by decide)]
+  simp only
+  rw [skipStrBody_enc name _ _ (by
+    have := length_le_flatMap_escByte name
+    simp only [List.length_append, List.length_cons]
+    omega)]
+  simp only [skipWs_cons_nonws (show isWs 58 = false by decide), hval, skipWs_cons_nonws (show isWs 44 = false by decide)]
+
+/-- the last member of a skipped object and its closing brace -/
+theorem skipMembers_last (fuel lvl lvl' : Nat) (name value rest : List Nat)
+    (hval : skipValue fuel (32 :: (value ++ (closeObj lvl' ++ rest))) = some (closeObj lvl' ++ rest)) :
+    skipMembers (fuel + 1) (member lvl true name value ++ (closeObj lvl' ++ rest)) = some rest := by
+  simp only [member, if_true, encStr, List.cons_append, List.append_assoc, List.nil_append]
+  conv => lhs; unfold skipMembers
+  rw [skipWs_nl_indent, skipWs_cons_nonws (show isWs 34 = false by decide)]
+  simp only
+  rw [skipStrBody_enc name _ _ (by
+    have := length_le_flatMap_escByte name
+    simp only [List.length_append, List.length_cons]
+    omega)]
+  simp only [skipWs_cons_nonws (show isWs 58 = false by decide), hval]
+  simp only [closeObj, List.cons_append, List.append_assoc, List.nil_append]
+  rw [skipWs_nl_indent, skipWs_cons_nonws (show isWs 125 = false by decide)]
+  rfl
+
+/-- a `CheckpointInfo` object the writer wrote, skipped as the value of an unknown field -/
+theorem skipValue_encChk (fuel lvl : Nat) (c : JChk) (rest : List Nat) (hf : 6 ≤ fuel) :
+    skipValue fuel (32 :: (encChk lvl c ++ rest)) = some rest := by
+  obtain ⟨f, rfl⟩ : ∃ f, fuel = f + 6 := ⟨fuel - 6, by omega⟩
+  conv => lhs; unfold skipValue
+  rw [skipWs_cons_ws (show isWs 32 = true by decide)]
+  unfold encChk
+  simp only [member_false, List.cons_append, List.append_assoc, List.nil_append]
+  rw [skipWs_cons_nonws (show isWs 123 = false by decide)]
+  have hnot : ∀ r, skipWs (member (lvl + 1) true [107, 101, 121] (encStr c.key) ++ r) =
+      34 :: ([107, 101, 121].flatMap escByte ++ 34 :: (58 :: 32 :: (encStr c.key ++ r))) := by
+    intro r
+    simp only [member, if_true, encStr, List.cons_append, List.append_assoc, List.nil_append]
+    rw [skipWs_nl_indent, skipWs_cons_nonws (show isWs 34 = false by decide)]
+  simp only [show ((123 : Nat) == 110) = false by decide, show ((123 : Nat) == 116) = false by decide,
+    show ((123 : Nat) == 102) = false by decide, show ((123 : Nat) == 45) = false by decide,
+    show isDigit 123 = false by decide, show ((123 : Nat) == 34) = false by decide,
+    show ((123 : Nat) == 91) = false by decide, show ((123 : Nat) == 123) = true by decide,
+    Bool.false_eq_true, if_false, if_true, hnot]
+  refine (skipMembers_member (f + 4) (lvl + 1) [107, 101, 121] (encStr c.key) _ (skipValue_str _ _ _)).trans ?_
+  refine (skipMembers_member (f + 3) (lvl + 1) [116, 105, 109, 101, 115, 116, 97, 109, 112, 95, 109, 115] (encNat c.ts) _
+    (skipValue_num _ _ _ (by simp [sepHead]))).trans ?_
+  refine (skipMembers_member (f + 2) (lvl + 1) [107, 101, 121, 95, 99, 111, 117, 110, 116] (encNat c.keyCount) _
+    (skipValue_num _ _ _ (by simp [sepHead]))).trans ?_
+  exact skipMembers_last (f + 1) (lvl + 1) lvl [108, 97, 115, 116, 95, 115, 101, 103, 109, 101, 110, 116, 95, 105, 100]
+    (encNat c.last) rest (skipValue_num _ _ _ (sepHead_closeObj _ _))
+
+theorem skipValue_null (fuel : Nat) (rest : List Nat) :
+    skipValue (fuel + 1) (32 :: ([110, 117, 108, 108] ++ rest)) = some rest := by
+  conv => lhs; unfold skipValue
+  rw [skipWs_cons_ws (show isWs 32 = true by decide)]
+  simp only [List.cons_append, List.nil_append]
+  rw [skipWs_cons_nonws (show isWs 110 = false by decide)]
+  simp [expectBytes]
+
+theorem skipValue_encChkOpt (lvl : Nat) (o : Option JChk) (rest : List Nat) :
+    skipValue ((32 :: (encChkOpt lvl o ++ rest)).length + 1) (32 :: (encChkOpt lvl o ++ rest)) = some rest := by
+  cases o with
+  | none => exact skipValue_null _ rest
+  | some c =>
+    apply skipValue_encChk
+    simp [encChkOpt, encChk, member]
+    omega
+
+/-- a member whose name the reader does not know: the value is skipped, nothing is recorded -/
+theorem parseMembers_unknown (fuel : Nat) (sk : SKind) (lvl : Nat) (name value rest : List Nat)
+    (vals : List (Nat × FVal)) (r4 : List Nat)
+    (hname : validUtf8 (name.length + 1) name = true)
+    (hidx : fieldIndex (fieldsOf sk) name = none)
+    (hval : skipValue ((32 :: (value ++ rest)).length + 1) (32 :: (value ++ rest)) = some r4) :
+    parseMembers (fuel + 1) sk false (member lvl false name value ++ rest) vals = parseMembers fuel sk false r4 vals := by
+  have hkey : parseStr (name.flatMap escByte ++ 34 :: (58 :: 32 :: (value ++ rest))) =
+      some (name, 58 :: 32 :: (value ++ rest)) := parseStr_enc name _ hname
+  simp only [member, Bool.false_eq_true, if_false, encStr, List.append_assoc, List.cons_append, List.nil_append]
+  conv => lhs; unfold parseMembers
+  rw [skipWs_cons_nonws (show isWs 44 = false by decide)]
+  simp only [show ((44 : Nat) == 125) = false by decide, show ((44 : Nat) == 44) = true by decide,
+    Bool.false_eq_true, if_false, if_true, skipWs_nl_indent, skipWs_cons_nonws (show isWs 34 = false by decide), hkey,
+    skipWs_cons_nonws (show isWs 58 = false by decide), hidx, hval]
+
+/-- the manifest object with the NAME of the checkpoint member replaced by a name the reader does
+    not know: everything else is read as before, the checkpoint is not -/
+theorem parseStruct_checkpoint_renamed (m : JMan) (hw : m.WF) (name' : List Nat)
+    (hv : validUtf8 (name'.length + 1) name' = true) (hunk : fieldIndex manFields name' = none)
+    (rest : List Nat) (fuel : Nat) (hf : m.segments.length + 20 ≤ fuel) :
+    ∃ vals, parseStruct fuel .man
+        ([123] ++ member 1 true [118, 101, 114, 115, 105, 111, 110] (encNat m.version) ++
+          member 1 false [114, 101, 112, 108, 105, 99, 97, 95, 105, 100] (encNat m.rid) ++
+          member 1 false [115, 101, 103, 109, 101, 110, 116, 115] (encSegs 1 m.segments) ++
+          member 1 false name' (encChkOpt 1 m.checkpoint) ++
+          member 1 false [110, 101, 120, 116, 95, 115, 101, 103, 109, 101, 110, 116, 95, 105, 100] (encNat m.next) ++
+          closeObj 0 ++ rest) = some (vals, rest) ∧
+      buildMan vals = some { m with checkpoint := none } := by
+  obtain ⟨f, rfl⟩ : ∃ f, fuel = f + 7 := ⟨fuel - 7, by omega⟩
+  obtain ⟨h1, h2, h3, h4, _⟩ := hw
+  refine ⟨[(4, .num m.next), (2, .segs m.segments), (1, .num m.rid), (0, .num m.version)], ?_, ?_⟩
+  · simp only [List.append_assoc, List.cons_append, List.nil_append]
+    conv => lhs; unfold parseStruct
+    rw [skipWs_cons_nonws (show isWs 123 = false by decide)]
+    simp only
+    refine (parseMembers_member (f + 5) .man true 1 [118, 101, 114, 115, 105, 111, 110] (encNat m.version) _ [] 0 .u64
+      (.num m.version) _ (by decide) (by decide) rfl (parseField_u64 _ _ _ h1 (sepHead_member _ _ _ _))).trans ?_
+    refine (parseMembers_member (f + 4) .man false 1 [114, 101, 112, 108, 105, 99, 97, 95, 105, 100] (encNat m.rid) _ _ 1 .u64
+      (.num m.rid) _ (by decide) (by decide) rfl (parseField_u64 _ _ _ h2 (sepHead_member _ _ _ _))).trans ?_
+    refine (parseMembers_member (f + 3) .man false 1 [115, 101, 103, 109, 101, 110, 116, 115] (encSegs 1 m.segments) _ _ 2 .segs
+      (.segs m.segments) _ (by decide) (by decide) rfl (parseField_segs _ _ _ _ h4 (by omega))).trans ?_
+    refine (parseMembers_unknown (f + 2) .man 1 name' (encChkOpt 1 m.checkpoint) _ _ _ hv hunk
+      (skipValue_encChkOpt 1 m.checkpoint _)).trans ?_
     refine (parseMembers_member (f + 1) .man false 1 [110, 101, 120, 116, 95, 115, 101, 103, 109, 101, 110, 116, 95, 105, 100]
       (encNat m.next) _ _ 4 .u64 (.num m.next) _ (by decide) (by decide) rfl
       (parseField_u64 _ _ _ h3 (sepHead_closeObj _ _))).trans ?_
